@@ -77,6 +77,7 @@ struct Plan {
   std::string data = "shipped";   // data configuration the plan was found in: shipped | K (Kissel table regenerated)
   uint64_t seed = 0, runseed = 0;
   int locale = LOC_C;
+  int reuse = 0;                  // allocator reuse mode: freed blocks are handed out again at once (rt.cc)
   std::vector<Op> setup;          // executed by the controller before tasks start (shared read-only objects)
   std::vector<TaskPlan> tasks;
   SchedCfg sched;
